@@ -209,6 +209,28 @@ func propC08(t *rapid.T) {
 				mutatedAliased = true
 			}
 		},
+		"andNotOwnPrefix": func(t *rapid.T) {
+			x := pick(t, "x")
+			keys := x.m.Keys16()
+			if len(keys) < 2 {
+				t.Skip("needs two chunks")
+			}
+			k := rapid.IntRange(1, len(keys)-1).Draw(t, "k")
+			ym := x.m.Window(0, uint64(keys[k])<<16-1)
+			if rapid.Bool().Draw(t, "beyond") && keys[len(keys)-1] < 0xFFFF {
+				ym.Add(uint64(keys[len(keys)-1]+1)<<16 + 3)
+			}
+			yl, err := live.Make(gen.FromSet(t, "prefix", ym, gen.KindsValid), live.Read)
+			if err != nil {
+				t.Fatalf("harness: %v", err)
+			}
+			log("#%d.AndNot(first %d chunks of itself)", x.id, k)
+			x.b.AndNot(yl.B)
+			x.m = model.AndNot(x.m, ym)
+			if x.id == 0 && !detached {
+				mutatedAliased = true
+			}
+		},
 		"static": func(t *rapid.T) {
 			x, y := pick(t, "x"), pick(t, "y")
 			op := rapid.IntRange(0, 3).Draw(t, "op")
